@@ -317,16 +317,14 @@ impl PgSession {
                     return Outcome { msgs: out, close: true };
                 }
                 _ => {
-                    // any other message type aborts the COPY
+                    // Any other message type during COPY IN is a protocol violation. PostgreSQL raises
+                    // the ERROR while it is in the middle of reading the message, and then terminates
+                    // the session: "terminating connection because protocol synchronization was lost".
                     self.copy_in = None;
                     self.err(&mut out, "08P01", &format!("unexpected message type 0x{:02X} during COPY from stdin", m.ty));
-                    if simple {
-                        self.end_implicit(true);
-                        self.ready(&mut out);
-                        return Outcome { msgs: out, close };
-                    }
-                    self.ext_error = true;
-                    // fall through: the message itself is skipped until Sync below
+                    out.push(proto::error_response("FATAL", "08P01", "terminating connection because protocol synchronization was lost"));
+                    self.closed = true;
+                    return Outcome { msgs: out, close: true };
                 }
             }
         }
